@@ -24,6 +24,7 @@ Env0 == <<
     D("Small", "named", "Small", TRUE, B("uint8"), FALSE, <<>>, <<>>, <<>>),
     D("IdOther", "named", "IdOther", TRUE, B("int64"), FALSE, <<>>, <<>>, <<>>),
     D("ParentId", "named", "ParentId", TRUE, B("int64"), FALSE, <<>>, <<>>, <<>>),
+    D("IdHTTPOwner", "named", "IdHTTPOwner", TRUE, B("int64"), FALSE, <<>>, <<>>, <<>>),   \* its table struct lives in ANOTHER file of the package
     D("MyDate", "named", "MyDate", TRUE, TimeTE, TRUE, <<>>, <<>>, <<>>),
     D("Stamp", "named", "Stamp", TRUE, TimeTE, FALSE, <<>>, <<>>, <<>>),
     D("RawBytes", "named", "RawBytes", TRUE, Sl(B("byte")), FALSE, <<>>, <<>>, <<>>),
@@ -72,6 +73,7 @@ Universe ==
     \cup {[Spec0(R("Kind")) EXCEPT !.exported = e, !.guard = [k |-> "enum", type |-> "Kind", const |-> "KB"]] : e \in BOOLEAN}
     \cup {[Spec0(te) EXCEPT !.foreign = "Other", !.ondelete = od] : te \in {B("int64"), R("sql.NullInt64"), R("OptId")}, od \in {"", "CASCADE", "SET NULL"}}
     \cup {[Spec0(R("IdOther")) EXCEPT !.ondelete = od] : od \in {"", "CASCADE"}}
+    \cup {[Spec0(B("int64")) EXCEPT !.foreign = "HTTPOwner", !.ondelete = "CASCADE"]}   \* (keys to a table declared in another file)
 
 VARIABLES spec, done
 Init == spec \in Universe /\ done = FALSE
